@@ -1202,6 +1202,226 @@ pub fn f10() -> Vec<Case> {
 }
 
 /// The whole corpus except the recursion family, simplest first.
+
+/// All sequences of length `len` over `menu`, in odometer order (first position slowest).
+fn sequences<T: Clone>(menu: &[T], len: usize) -> Vec<Vec<T>> {
+    let mut out: Vec<Vec<T>> = vec![Vec::new()];
+    for _ in 0..len {
+        let mut next = Vec::new();
+        for pre in &out {
+            for m in menu {
+                let mut v = pre.clone();
+                v.push(m.clone());
+                next.push(v);
+            }
+        }
+        out = next;
+    }
+    out
+}
+
+/// F11: input traces. Program variables located at direct input addresses receive a new value
+/// before every cycle (written into the input image the way a driver does); the programs keep state
+/// across cycles (accumulator, edge memory, FB instance, array) so the final state depends on the
+/// whole trace, and several values of the menu make a cycle fault (overflow of the accumulated
+/// sum, division by an input of zero, index from an input). Every trace of the stated length over
+/// the value menu is enumerated.
+pub fn f11(thorough: bool) -> Vec<Case> {
+    let mut out = Vec::new();
+    let len = if thorough { 5 } else { 3 };
+    let li = |x: i128| lit(int(Ty::Int, x));
+    let int_menu: Vec<V> = [0i128, 1, -1, 2, 32767, -32768].iter().map(|&x| int(Ty::Int, x)).collect();
+    let small_menu: Vec<V> = [0i128, 1, -1, 2, 3].iter().map(|&x| int(Ty::Int, x)).collect();
+    let mut one_input = |name: &str, ty: Ty, addr: &str, menu: &[V], vars: Vec<Decl>, body: Vec<S>, extra: &dyn Fn(&mut Prog)| {
+        for tr in sequences(menu, len) {
+            let mut v = vec![Decl::new("x", ty)];
+            v.extend(vars.clone());
+            let mut p = prog(v, body.clone());
+            p.at = vec![("x".into(), addr.into())];
+            p.inputs = tr.iter().map(|val| vec![("x".to_string(), *val)]).collect();
+            extra(&mut p);
+            out.push(case("F11", format!("input-trace:{name}"), p, len, true));
+        }
+    };
+    let none = |_: &mut Prog| {};
+    // accumulate: overflow depends on the trace
+    one_input("accumulate:INT", Ty::Int, "%IW0", &int_menu, vec![Decl::new("acc", Ty::Int), Decl::new("n", Ty::Int)], vec![
+        assign("n", bin(Op::Add, var("n"), li(1))),
+        assign("acc", bin(Op::Add, var("acc"), var("x"))),
+    ], &none);
+    // divide / modulo by the input; the statements before the fault stay visible
+    one_input("divide:INT", Ty::Int, "%IW2", &int_menu, vec![Decl::new("q", Ty::Int), Decl::new("m", Ty::Int), Decl::new("n", Ty::Int)], vec![
+        assign("n", bin(Op::Add, var("n"), li(1))),
+        assign("q", bin(Op::Div, li(-32768), var("x"))),
+        assign("m", bin(Op::Mod, bin(Op::Add, var("q"), var("n")), var("x"))),
+    ], &none);
+    // index from the input (array 0..2), read-modify-write
+    one_input("index:INT", Ty::Int, "%IW4", &small_menu, vec![Decl { name: "a".into(), ty: TyX::Arr(0, 2, Ty::Int), init: None }, Decl::new("n", Ty::Int)], vec![
+        assign("n", bin(Op::Add, var("n"), li(1))),
+        S::Assign(LV::Idx("a".into(), vec![var("x")]), bin(Op::Add, E::Idx("a".into(), vec![var("x")]), var("n"))),
+    ], &none);
+    // CASE on the input with state
+    one_input("case:INT", Ty::Int, "%IW6", &small_menu, vec![Decl::new("s", Ty::Int), Decl::new("e", Ty::Int)], vec![S::Case(
+        var("x"),
+        vec![
+            (vec![Label::One(0)], vec![assign("s", bin(Op::Add, var("s"), li(1)))]),
+            (vec![Label::Range(1, 2)], vec![assign("s", bin(Op::Mul, var("s"), li(2)))]),
+        ],
+        Some(vec![assign("e", bin(Op::Add, var("e"), var("x")))]),
+    )], &none);
+    // FOR bounded by the input (empty ranges for negative inputs), WHILE countdown
+    one_input("for-bound:INT", Ty::Int, "%IW8", &small_menu, vec![Decl::new("i", Ty::Int), Decl::new("s", Ty::Int), Decl::new("k", Ty::Int)], vec![
+        S::For { var: "i".into(), from: li(0), to: var("x"), by: None, body: vec![assign("s", bin(Op::Add, var("s"), var("i")))] },
+        assign("k", var("x")),
+        S::While(bin(Op::Gt, var("k"), li(0)), vec![assign("k", bin(Op::Sub, var("k"), li(1))), assign("s", bin(Op::Add, var("s"), li(10)))]),
+    ], &none);
+    // comparison with the previous input (direction counters)
+    one_input("direction:INT", Ty::Int, "%IW10", &int_menu, vec![Decl::new("prev", Ty::Int), Decl::new("up", Ty::Int), Decl::new("dn", Ty::Int)], vec![
+        S::If(
+            vec![
+                (bin(Op::Gt, var("x"), var("prev")), vec![assign("up", bin(Op::Add, var("up"), li(1)))]),
+                (bin(Op::Lt, var("x"), var("prev")), vec![assign("dn", bin(Op::Add, var("dn"), li(1)))]),
+            ],
+            None,
+        ),
+        assign("prev", var("x")),
+    ], &none);
+    // FB instance with state fed from the input; a second instance fed with the negated input
+    {
+        let fb = FbDef {
+            name: "Sum".into(),
+            inputs: vec![Decl::new("d", Ty::Int)],
+            outputs: vec![Decl::new("total", Ty::Int)],
+            vars: vec![],
+            body: vec![assign("total", bin(Op::Add, var("total"), var("d")))],
+        };
+        let inst = |n: &str| Decl { name: n.into(), ty: TyX::Fb("Sum".into()), init: None };
+        one_input("fb-state:INT", Ty::Int, "%IW12", &int_menu, vec![inst("fa"), inst("fb"), Decl::new("ra", Ty::Int), Decl::new("rb", Ty::Int)], vec![
+            S::FbCall("fa".into(), vec![Arg::In("d".into(), var("x"))]),
+            assign("ra", E::Fld("fa".into(), "total".into())),
+            S::FbCall("fb".into(), vec![Arg::In("d".into(), E::Neg(Box::new(var("x"))))]),
+            assign("rb", E::Fld("fb".into(), "total".into())),
+        ], &|p: &mut Prog| p.fbs.push(fb.clone()));
+    }
+    // widening of the input into a wider accumulator, and a function by value
+    {
+        let f = Func {
+            name: "Clamp".into(),
+            ret: Some(Ty::Int),
+            inputs: vec![Decl::new("v", Ty::Int), Decl::new("hi", Ty::Int)],
+            body: vec![S::If(vec![(bin(Op::Gt, var("v"), var("hi")), vec![assign("Clamp", var("hi"))])], Some(vec![assign("Clamp", var("v"))]))],
+            ..Default::default()
+        };
+        one_input("widen-and-call:INT", Ty::Int, "%IW14", &int_menu, vec![Decl::new("w", Ty::DInt), Decl::new("c", Ty::Int)], vec![
+            assign("w", bin(Op::Add, var("w"), var("x"))),
+            assign("c", bin(Op::Add, var("c"), E::Call("Clamp".into(), vec![Arg::Pos(var("x")), Arg::Pos(li(100))]))),
+        ], &|p: &mut Prog| p.funcs.push(f.clone()));
+    }
+    // other integer widths: the latch must deliver the exact value for every cell size
+    for (ty, addr) in [(Ty::SInt, "%IB20"), (Ty::USInt, "%IB21"), (Ty::UInt, "%IW22"), (Ty::DInt, "%ID24"), (Ty::UDInt, "%ID28"), (Ty::LInt, "%IL32"), (Ty::ULInt, "%IL40")] {
+        let mut menu: Vec<V> = vec![int(ty, 0), int(ty, 1), int(ty, ty.max()), int(ty, ty.max() - 1)];
+        if ty.is_signed() {
+            menu.push(int(ty, -1));
+            menu.push(int(ty, ty.min()));
+        }
+        let l1 = lit(int(ty, 1));
+        one_input(&format!("accumulate:{}", ty.name()), ty, addr, &menu, vec![Decl::new("acc", ty), Decl::new("last", ty)], vec![
+            assign("last", var("x")),
+            assign("acc", bin(Op::Add, var("acc"), bin(Op::Div, var("x"), bin(Op::Add, l1.clone(), l1)))),
+        ], &none);
+    }
+    // REAL / LREAL inputs: accumulate and compare (exact IEEE results are part of the reference)
+    for (ty, addr, menu) in [
+        (Ty::Real, "%ID56", vec![V::R(0.0), V::R(1.5), V::R(-2.25), V::R(3.0e38), V::R(1.0e-38)]),
+        (Ty::LReal, "%IL64", vec![V::L(0.0), V::L(1.5), V::L(-2.25), V::L(1.0e308), V::L(1.0e-308)]),
+    ] {
+        let rlen = if thorough { 4 } else { 3 };
+        for tr in sequences(&menu, rlen) {
+            let mut p = prog(
+                vec![Decl::new("x", ty), Decl::new("acc", ty), Decl::new("big", Ty::Int)],
+                vec![
+                    assign("acc", bin(Op::Add, var("acc"), var("x"))),
+                    S::If(vec![(bin(Op::Gt, var("x"), var("acc")), vec![assign("big", bin(Op::Add, var("big"), li(1)))])], None),
+                ],
+            );
+            p.at = vec![("x".into(), addr.into())];
+            p.inputs = tr.iter().map(|v| vec![("x".to_string(), *v)]).collect();
+            out.push(case("F11", format!("input-trace:accumulate:{}", ty.name()), p, rlen, true));
+        }
+    }
+    // BOOL input: rising-edge counter (every trace)
+    {
+        let menu = [V::B(false), V::B(true)];
+        let blen = if thorough { 10 } else { 5 };
+        for tr in sequences(&menu, blen) {
+            let mut p = prog(
+                vec![Decl::new("x", Ty::Bool), Decl::new("prev", Ty::Bool), Decl::new("cnt", Ty::Int), Decl::new("high", Ty::Int)],
+                vec![
+                    S::If(vec![(bin(Op::And, var("x"), E::Not(Box::new(var("prev")))), vec![assign("cnt", bin(Op::Add, var("cnt"), li(1)))])], None),
+                    S::If(vec![(var("x"), vec![assign("high", bin(Op::Add, var("high"), li(1)))])], None),
+                    assign("prev", var("x")),
+                ],
+            );
+            p.at = vec![("x".into(), "%IX48.3".into())];
+            p.inputs = tr.iter().map(|v| vec![("x".to_string(), *v)]).collect();
+            out.push(case("F11", "input-trace:rising-edge:BOOL".into(), p, blen, true));
+        }
+    }
+    // two inputs that interact: q := a / b with both from the image
+    {
+        let ma: Vec<V> = [0i128, 7, -32768].iter().map(|&x| int(Ty::Int, x)).collect();
+        let mb: Vec<V> = [0i128, -1, 2].iter().map(|&x| int(Ty::Int, x)).collect();
+        let pairs: Vec<(V, V)> = ma.iter().flat_map(|a| mb.iter().map(move |b| (*a, *b))).collect();
+        let plen = if thorough { 4 } else { 2 };
+        for tr in sequences(&pairs, plen) {
+            let mut p = prog(
+                vec![Decl::new("a", Ty::Int), Decl::new("b", Ty::Int), Decl::new("q", Ty::Int), Decl::new("n", Ty::Int)],
+                vec![assign("n", bin(Op::Add, var("n"), li(1))), assign("q", bin(Op::Add, var("q"), bin(Op::Div, var("a"), var("b"))))],
+            );
+            p.at = vec![("a".into(), "%IW50".into()), ("b".into(), "%IW52".into())];
+            p.inputs = tr.iter().map(|(a, b)| vec![("a".to_string(), *a), ("b".to_string(), *b)]).collect();
+            out.push(case("F11", "input-trace:two-inputs:divide".into(), p, plen, true));
+        }
+    }
+    out
+}
+
+/// F12: two-operator expression trees over one integer type, both association shapes written
+/// with parentheses, every operator pair, every operand triple of the boundary menu:
+/// `r := (a OP1 b) OP2 c` and `r := a OP1 (b OP2 c)`. The intermediate result is computed in the
+/// operand type, so a fault in the inner operation (overflow, division by zero) must surface even
+/// when the outer operation would bring the value back into range.
+pub fn f12(thorough: bool) -> Vec<Case> {
+    let mut out = Vec::new();
+    let types: Vec<Ty> = if thorough { INTS.to_vec() } else { vec![Ty::Int, Ty::USInt] };
+    for &t in &types {
+        let vals = small_bounds(t);
+        for &op1 in &ARITH {
+            for &op2 in &ARITH {
+                for shape in ["left", "right"] {
+                    for &a in &vals {
+                        for &b in &vals {
+                            for &c in &vals {
+                                let e = if shape == "left" {
+                                    bin(op2, E::Paren(Box::new(bin(op1, var("a"), var("b")))), var("c"))
+                                } else {
+                                    bin(op1, var("a"), E::Paren(Box::new(bin(op2, var("b"), var("c")))))
+                                };
+                                let p = prog(
+                                    vec![Decl::init("a", int(t, a)), Decl::init("b", int(t, b)), Decl::init("c", int(t, c)), Decl::new("r", t), Decl::new("done", Ty::Bool)],
+                                    vec![assign("r", e), assign("done", lit(V::B(true)))],
+                                );
+                                out.push(case("F12", format!("tree:{}:{}:{}:{shape}", t.name(), op1.name(), op2.name()), p, 1, true));
+                            }
+                        }
+                    }
+                }
+            }
+        }
+    }
+    out
+}
+
 pub fn corpus(thorough: bool) -> Vec<Case> {
     let mut out = Vec::new();
     out.extend(f2());
@@ -1214,5 +1434,7 @@ pub fn corpus(thorough: bool) -> Vec<Case> {
     out.extend(f8());
     out.extend(f9());
     out.extend(f10());
+    out.extend(f11(thorough));
+    out.extend(f12(thorough));
     out
 }
